@@ -102,6 +102,21 @@ PROPS = {
         "level_text": "Exploration by generated histories; the oracle is a three-way differential between constructions of the same state from the stored audit log. Sampling of histories, not proof of purity of apply().",
         "level_note": "Trusted base: serde views of the aggregates (complete state), the storage copy routine of the harness.",
     },
+    "C07": {
+        "level": "exploration",
+        "cases": {"quick": 16000, "thorough": 320000},
+        "rule": "cases = generated (back-end memory/disk, history cache on/off, 1-3 entities, 2-5 writer threads with 3-25 (thorough 5-60) commands each drawn from accepted (one and two events), rejected, no-op and pre-save-failing commands addressed to generated entities, "
+        "0-2 reader threads, half of them on a second store object with a cache of its own, schedule perturbation seed) tuples run on krill's real AggregateStore with real threads; the yield points (hook H-yield) at the storage locks, before processing, before the store and "
+        "before the cache update sleep/yield pseudo-randomly from the seed; distinct by hash of the case JSON; non-trivial iff some entity's audit log shows commands of at least two threads interleaved (two or more switches)",
+        "floors": {"__nontrivial__": 0.50, "entity_with_2plus_writers": 0.80, "rejected_recorded": 0.60, "presave_failure": 0.50, "noop": 0.50, "disk": 0.30, "second_store_object": 0.15},
+        "assumptions": ["the aggregate is a small one of the harness (state = list of applied commands) so that every read-out names the order it results from; the store, locking, cache and history code are krill's",
+                        "all writers use one store object, as in the daemon; a second store object over the same storage is only read from",
+                        "the thread schedule is chosen by the OS and perturbed at the yield points; it is not enumerated"],
+        "technique": "property-based concurrency testing: generated multi-threaded command schedules against the real store, with an invariant over the resulting history as oracle (contiguous versions, one record per state-changing or rejected command with actor and error, none for no-op and pre-save failures, "
+        "final state = fold of the audit log = replay in a fresh store, every state returned to any caller or seen by any reader = the state after a prefix of the log, post-save listeners see every accepted event once)",
+        "level_text": "Exploration by generated concurrent schedules with random perturbation at hook points; linearisability-style history check. Sampling of schedules, not proof.",
+        "level_note": "Trusted base: the harness aggregate; OS scheduling.",
+    },
     "C12": {
         "level": "exploration",
         "cases": {"quick": 1600, "thorough": 32000},
